@@ -11,7 +11,17 @@ import (
 
 type Rng struct{ s uint64 }
 
-func NewRng(seed uint64) *Rng { return &Rng{s: seed*0x9E3779B97F4A7C15 + 0x1234567} }
+// NewRng: seed 1 (the default) keeps its original stream; every other seed is first passed through the splitmix64 finaliser, so
+// that different seeds give unrelated streams (seed*gamma alone would only shift the default stream by a few draws).
+func NewRng(seed uint64) *Rng {
+	if seed == 1 {
+		return &Rng{s: seed*0x9E3779B97F4A7C15 + 0x1234567}
+	}
+	z := seed + 0x9E3779B97F4A7C15
+	z = (z ^ (z >> 30)) * 0xBF58476D1CE4E5B9
+	z = (z ^ (z >> 27)) * 0x94D049BB133111EB
+	return &Rng{s: z ^ (z >> 31)}
+}
 
 func SeedFromEnv() uint64 {
 	v := os.Getenv("VERIF_SEED")
